@@ -11,6 +11,7 @@ The repository has no goto (checked at extraction: a GotoStmt makes the function
 """
 from fractions import Fraction
 import math
+import re
 
 from .facts import walk, show, strip_casts
 from .normform import Rat, Poly, Normalizer, NotInClass, reduce_trig, INT_TYPES
@@ -107,6 +108,11 @@ class State:
         return s
 
 
+class _FakeState:
+    def __init__(self, facts):
+        self.facts = facts
+
+
 PURE_LIBM = {'sin', 'cos', 'tan', 'exp', 'log', 'sqrt', 'pow', 'fabs', 'asin', 'acos', 'atan', 'atan2', 'floor', 'ceil',
              'log10', 'sinh', 'cosh', 'fmax', 'fmin', 'abs'}
 ALLOCATORS = {'malloc', 'calloc', 'realloc', 'strdup', 'xrl_strdup', 'xrl_strndup', 'strndup', 'fopen'}
@@ -114,7 +120,7 @@ ALLOCATORS = {'malloc', 'calloc', 'realloc', 'strdup', 'xrl_strdup', 'xrl_strndu
 
 class Interp:
     def __init__(self, prog, func, max_paths=20000, unroll=1200, const_tables=True, call_model=None, on_subscript=None,
-                 on_deref=None, pure_pred=None):
+                 on_deref=None, pure_pred=None, on_math=None, on_div=None):
         self.prog = prog
         self.func = func
         self.max_paths = max_paths
@@ -124,7 +130,14 @@ class Interp:
         self.on_subscript = on_subscript
         self.on_deref = on_deref
         self.pure_pred = pure_pred
+        self.on_math = on_math
+        self.on_div = on_div
         self.const_tables = const_tables
+        self.loop_fork_limit = 48
+        self.fabs_args = {}
+        # recorded assumptions about data handed out by the compound constructors (A1, A2 in DESIGN.md appendix B)
+        self.assume_patterns = [(re.compile(r'\.massFractions\)\[[^\]]*\]$'), Interval(Fraction(0), None, True, False)),
+                                (re.compile(r'\.nElements$'), Interval(Fraction(1), None))]
         self.types = {}          # canonical symbol -> C type (for integer reasoning)
         self.var_types = {}
         self.addr_taken = set()
@@ -177,6 +190,14 @@ class Interp:
             a = abs(first)
             p = Poly({k: v / (s * a) for k, v in mons.items() if k != ()})
             return repr(p), s * a, mons.get((), Fraction(0))
+        # rational function: split off the constant part when the denominator is a single monomial
+        if len(den.t) == 1:
+            dm, dc = list(den.t.items())[0]
+            cpart = n.t.get(dm)
+            if cpart is not None:
+                rest = Poly({k: v for k, v in n.t.items() if k != dm})
+                if not rest.is_zero():
+                    return Rat(rest, den).canon(), Fraction(1), cpart / dc
         key = d.canon()
         return key, Fraction(1), Fraction(0)
 
@@ -191,8 +212,14 @@ class Interp:
             iv = base
         elif base is not None:
             iv = self._meet(iv, base)
-        if iv is None:
-            return Interval()
+        if iv is None or (iv.lo is None and iv.hi is None and not iv.nz):
+            ev = self._interval_eval(d, st)
+            if ev is not None:
+                if iv is not None and iv.nz:
+                    ev.nz = True
+                return ev
+            if iv is None:
+                return Interval()
         lo, hi, los, his = iv.lo, iv.hi, iv.los, iv.his
         if a > 0:
             nlo = None if lo is None else a * lo + b
@@ -205,6 +232,131 @@ class Interp:
         if iv.nz and b == 0:
             r.nz = True
         return r
+
+    # ---- interval arithmetic over the polynomial structure (used when no fact is stored for the whole expression)
+    def _sym_interval(self, sym, st):
+        iv = st.facts.get(sym)
+        base = self._builtin_interval(sym)
+        if iv is None:
+            return base.copy() if base else Interval()
+        return self._meet(iv, base) if base else iv
+
+    @staticmethod
+    def _imul(x, y):
+        """Product of two intervals (None = unbounded); strictness is kept only for sign information."""
+        def sgn(iv):
+            pos = iv.lo is not None and (iv.lo > 0 or (iv.lo == 0 and iv.los))
+            nonneg = iv.lo is not None and iv.lo >= 0
+            neg = iv.hi is not None and (iv.hi < 0 or (iv.hi == 0 and iv.his))
+            nonpos = iv.hi is not None and iv.hi <= 0
+            return pos, nonneg, neg, nonpos
+        cands = []
+        unb = False
+        for a in (x.lo, x.hi):
+            for b in (y.lo, y.hi):
+                if a is None or b is None:
+                    unb = True
+                else:
+                    cands.append(a * b)
+        r = Interval()
+        if not unb and cands:
+            r.lo, r.hi = min(cands), max(cands)
+        else:
+            px, nnx, ngx, npx = sgn(x)
+            py, nny, ngy, npy = sgn(y)
+            if (nnx and nny) or (npx and npy):
+                lo = None
+                if x.lo is not None and y.lo is not None and nnx and nny:
+                    lo = x.lo * y.lo
+                elif x.hi is not None and y.hi is not None and npx and npy:
+                    lo = x.hi * y.hi
+                r.lo = lo if lo is not None else Fraction(0)
+            elif (nnx and npy) or (npx and nny):
+                r.hi = Fraction(0)
+        zx, zy = x.excludes_zero(), y.excludes_zero()
+        if zx and zy:
+            r.nz = True
+            if r.lo == 0:
+                r.los = True
+            if r.hi == 0:
+                r.his = True
+        return r
+
+    @staticmethod
+    def _iadd(x, y):
+        r = Interval()
+        if x.lo is not None and y.lo is not None:
+            r.lo = x.lo + y.lo
+            r.los = x.los or y.los
+        if x.hi is not None and y.hi is not None:
+            r.hi = x.hi + y.hi
+            r.his = x.his or y.his
+        return r
+
+    def _poly_interval(self, p, st):
+        total = Interval(Fraction(0), Fraction(0))
+        for mon, co in p.t.items():
+            m = Interval(co, co)
+            for sym, pw in mon:
+                iv = self._sym_interval(sym, st)
+                if pw % 2 == 0:
+                    # even power: non-negative, positive if the base excludes zero
+                    base = self._imul(iv, iv)
+                    if base.lo is None or base.lo < 0:
+                        base.lo, base.los = Fraction(0), False
+                    if iv.excludes_zero():
+                        base.nz = True
+                        if base.lo == 0:
+                            base.los = True
+                    acc = base
+                    for _ in range(pw // 2 - 1):
+                        acc = self._imul(acc, base)
+                    m = self._imul(m, acc)
+                else:
+                    acc = iv
+                    for _ in range(pw - 1):
+                        acc = self._imul(acc, iv)
+                    m = self._imul(m, acc)
+            total = self._iadd(total, m) if len(p.t) > 1 or True else m
+        if len(p.t) == 1:
+            # single monomial keeps the non-zero flag
+            mon, co = list(p.t.items())[0]
+            if all(self._sym_interval(sym, st).excludes_zero() for sym, pw in mon) and co != 0:
+                total.nz = True
+                if total.lo == 0:
+                    total.los = True
+                if total.hi == 0:
+                    total.his = True
+        return total
+
+    def _interval_eval(self, d, st):
+        try:
+            n = self._poly_interval(reduce_trig(d.n), st)
+            den = reduce_trig(d.d)
+            if den.is_const():
+                c = den.const_value()
+                if c == 0:
+                    return None
+                return self._imul(n, Interval(1 / c, 1 / c))
+            dv = self._poly_interval(den, st)
+            if not dv.excludes_zero():
+                return None
+            # reciprocal of an interval of one sign
+            inv = Interval()
+            if dv.lo is not None and dv.lo >= 0:
+                inv.lo = (1 / dv.hi) if dv.hi not in (None, 0) else Fraction(0)
+                inv.los = dv.hi is None
+                inv.hi = (1 / dv.lo) if dv.lo not in (None, 0) else None
+            elif dv.hi is not None and dv.hi <= 0:
+                inv.hi = (1 / dv.lo) if dv.lo not in (None, 0) else Fraction(0)
+                inv.his = dv.lo is None
+                inv.lo = (1 / dv.hi) if dv.hi not in (None, 0) else None
+            else:
+                return None
+            inv.nz = True
+            return self._imul(n, inv)
+        except (ZeroDivisionError, TypeError):
+            return None
 
     def is_zero(self, d, st):
         """d is literally 0, or the fact store pins it to 0 on this path (e.g. `if (rv == 0.0) return rv;`)."""
@@ -235,9 +387,49 @@ class Interp:
             return Interval(Fraction(1), None)
         if key.startswith('strlen('):
             return Interval(Fraction(0), None)
+        for rx, iv in self.assume_patterns:
+            if rx.search(key):
+                return iv
         return None
 
     def assume(self, st, d, op, is_int=False):
+        """Assume d op 0, and for a pure product a*b*... compared with 0 also what follows for the factors."""
+        if not self._assume1(st, d, op, is_int):
+            return False
+        # |x| <= c  =>  -c <= x <= c
+        key, a_, b_ = self._key_of(d)
+        if key is not None and key in self.fabs_args:
+            iv = st.facts.get(key)
+            if iv is not None and iv.hi is not None:
+                x = self.fabs_args[key]
+                if not self._assume1(st, x - Rat.const(iv.hi), '<' if iv.his else '<=', False):
+                    return False
+                if not self._assume1(st, x + Rat.const(iv.hi), '>' if iv.his else '>=', False):
+                    return False
+        n = reduce_trig(d.n)
+        if len(n.t) == 1 and () not in n.t and op in ('==', '!=', '<', '>'):
+            mon = list(n.t.keys())[0]
+            factors = [Rat.sym(s_) for s_, pw in mon]
+            den = reduce_trig(d.d)
+            if not den.is_const():
+                if len(den.t) != 1:
+                    return True
+                # a quotient: the numerator decides zero-ness (denominator assumed non-zero where the code divides)
+            if len(factors) >= 2 or not den.is_const():
+                if op in ('!=', '<', '>'):
+                    for f_ in factors:
+                        if not self._assume1(st, f_, '!=', False):
+                            return False
+                else:
+                    unknown = [f_ for f_ in factors if not self.interval_of(f_, st).excludes_zero()]
+                    if not unknown:
+                        return False
+                    if len(unknown) == 1:
+                        if not self._assume1(st, unknown[0], '==', False):
+                            return False
+        return True
+
+    def _assume1(self, st, d, op, is_int=False):
         """Assume  d op 0.  Returns False if refuted by the fact store, True otherwise (store refined)."""
         key, a, b = self._key_of(d)
         if key is None:
@@ -628,13 +820,38 @@ class Interp:
     def _adopt(self, st, other):
         st.env, st.mem, st.facts, st.events, st.conds = other.env, other.mem, other.facts, other.events, other.conds
 
+    def store_interval(self, st, d, iv):
+        """Record that d lies in iv (derived structurally from its operands)."""
+        if iv is None or (iv.lo is None and iv.hi is None and not iv.nz):
+            return
+        key, a, b = self._key_of(d)
+        if key is None or a == 0:
+            return
+        # K = (d - b)/a
+        if a > 0:
+            k = Interval(None if iv.lo is None else (iv.lo - b) / a, None if iv.hi is None else (iv.hi - b) / a, iv.los, iv.his)
+        else:
+            k = Interval(None if iv.hi is None else (iv.hi - b) / a, None if iv.lo is None else (iv.lo - b) / a, iv.his, iv.los)
+        if iv.nz and b == 0:
+            k.nz = True
+        old = st.facts.get(key)
+        new = self._meet(old, k) if old is not None else k
+        if not new.empty():
+            st.facts[key] = new
+
     def _arith(self, op, a, b, node, st):
-        if op == '+':
-            return a + b
-        if op == '-':
-            return a - b
-        if op == '*':
-            return a * b
+        if op in ('+', '-', '*'):
+            r = a + b if op == '+' else (a - b if op == '-' else a * b)
+            if not reduce_trig(r.n).is_const() and len(reduce_trig(r.n).t) > 1:
+                ia, ib = self.interval_of(a, st), self.interval_of(b, st)
+                if op == '*':
+                    self.store_interval(st, r, self._imul(ia, ib))
+                elif op == '+':
+                    self.store_interval(st, r, self._iadd(ia, ib))
+                else:
+                    neg = Interval(None if ib.hi is None else -ib.hi, None if ib.lo is None else -ib.lo, ib.his, ib.los)
+                    self.store_interval(st, r, self._iadd(ia, neg))
+            return r
         # division
         T = node.get('T')
         lt = node['c'][0].get('T')
@@ -653,7 +870,17 @@ class Interp:
         if reduce_trig(b.n).is_zero():
             st.notes.append(('div-by-zero-literal', node))
             return Rat.sym(self.fresh('divzero'))
-        return a / b
+        if self.on_div:
+            self.on_div(node, b, st, self)
+        r = a / b
+        ib = self.interval_of(b, st)
+        if ib.excludes_zero() and not (reduce_trig(r.n).is_const() and r.d.is_const()):
+            ia = self.interval_of(a, st)
+            one = Rat.const(1)
+            inv = self._interval_eval(Rat(Poly.const(1), Poly.sym('__b__')), _FakeState({'__b__': ib}))
+            if inv is not None:
+                self.store_interval(st, r, self._imul(ia, inv))
+        return r
 
     # ----------------------------------------------------------------------------------- assignment
     def assign(self, lhs, v, st, node=None):
@@ -715,6 +942,8 @@ class Interp:
                 else:
                     key = self.lvalue_key(t, st)
                     st.mem[key] = Rat.sym('%s@%d' % (key, cid))
+        if self.on_math and name in ('log', 'log10', 'asin', 'acos', 'sqrt', 'pow'):
+            self.on_math(node, name, args, st, self)
         res = None
         if self.call_model:
             res = self.call_model(ev, st, self)
@@ -728,6 +957,8 @@ class Interp:
                 sym = '%s#%d(%s)' % (name, cid, ','.join(a.canon() for a in args))
             self.types[sym] = T
             res = Rat.sym(sym)
+            if name in ('fabs', 'abs') and len(args) == 1:
+                self.fabs_args[sym] = args[0]
         ev.result = res
         return res
 
@@ -896,6 +1127,8 @@ class Interp:
         body = node.get('body')
         inc = node.get('inc') if k == 'ForStmt' else None
         exited = []
+        originals = [s.fork() for s in live] if k != 'DoStmt' else None
+        n_entry = max(1, len(live))
         cur = live
         first = (k == 'DoStmt')
         iters = 0
@@ -903,6 +1136,11 @@ class Interp:
             iters += 1
             if iters > self.unroll:
                 raise Inconclusive('loop in %s does not terminate under exact unrolling' % self.func['name'])
+            if originals is not None and iters > 1 and len(cur) + len(exited) > self.loop_fork_limit * n_entry:
+                # the body forks on every iteration (independent conditional accumulation): exact unrolling would be
+                # exponential, fall back to the zero-or-more-iterations approximation from the loop entry states
+                ex, rets = self.approx_loop(node, originals)
+                return out + ex + rets
             nxt = []
             undecided = []
             if first:
@@ -946,10 +1184,49 @@ class Interp:
                 ex, rets = self.approx_loop(node, undecided)
                 exited += ex
                 out += rets
-            cur = nxt
+            cur = self.merge(nxt) if len(nxt) > 8 else nxt
             if len(cur) + len(exited) + len(out) > self.max_paths:
                 raise Inconclusive('path budget exceeded in a loop of %s' % self.func['name'])
         return out + exited
+
+    def merge(self, states):
+        """Join abstract paths that differ only in their facts (e.g. the two ways `a && b` can be false): the
+        environment, memory and event list are identical, the fact stores are joined by interval hull."""
+        groups = {}
+        order = []
+        for s in states:
+            key = (s.status, tuple(id(e) for e in s.events),
+                   tuple(sorted((k, v.canon()) for k, v in s.env.items())),
+                   tuple(sorted((k, v.canon()) for k, v in s.mem.items())))
+            if key in groups:
+                g = groups[key]
+                nf = {}
+                for fk, iv in g.facts.items():
+                    o = s.facts.get(fk)
+                    if o is None:
+                        continue
+                    h = Interval()
+                    if iv.lo is not None and o.lo is not None:
+                        if iv.lo < o.lo or (iv.lo == o.lo and not iv.los):
+                            h.lo, h.los = iv.lo, iv.los
+                        else:
+                            h.lo, h.los = o.lo, o.los
+                    if iv.hi is not None and o.hi is not None:
+                        if iv.hi > o.hi or (iv.hi == o.hi and not iv.his):
+                            h.hi, h.his = iv.hi, iv.his
+                        else:
+                            h.hi, h.his = o.hi, o.his
+                    h.nz = iv.nz and o.nz
+                    nf[fk] = h
+                g.facts = nf
+                n = 0
+                while n < len(g.conds) and n < len(s.conds) and g.conds[n] is s.conds[n]:
+                    n += 1
+                g.conds = g.conds[:n]
+            else:
+                groups[key] = s
+                order.append(key)
+        return [groups[k] for k in order]
 
     def written_in(self, node):
         ids = {}
